@@ -49,6 +49,13 @@ class TokPE(pe.PE):
     def on_store(self, state, frame, instr, addr, val):
         if addr[0] == "ptr" and addr[1] in ("pb", "pbbuf"):
             state.trace.append(("pbstore", addr[1]))
+        if addr[0] == "ptr" and addr[1] == "tok":
+            loc = self._loc(state, addr)
+            if loc is not None:
+                el, fl = pe.fields_of(loc[1])
+                state.trace.append(("wr", fl[0] if fl else 0))
+        if addr[0] == "ptr" and addr[1] == "stack":
+            state.trace.append(("wrstack",))
 
     def trace_digest(self, state):
         return tuple((e[1], e[2][1:] if e[1] == "printbuf_memappend" else None) for e in state.trace
@@ -65,6 +72,7 @@ class TokPE(pe.PE):
             if el != 0 or len(fl) > 1:
                 return pe.TOP
             k = fl[0] if fl else 0
+            state.trace.append(("rd", k))
             for oname, oval in self.overrides.items():
                 if k == F[oname]:
                     return oval
@@ -108,6 +116,7 @@ class TokPE(pe.PE):
             return pe.TOP
         if base == "input":
             if path == ():
+                state.trace.append(("read", 0))
                 if "c" not in state.roots:
                     state.roots["c"] = frozenset(self.byte_domain)
                 return pe.R("c")
@@ -173,7 +182,7 @@ def initial_config():
 
 
 class Outcome:
-    __slots__ = ("bytes", "err", "ret_nonnull", "consumed", "next", "appends", "calls", "lookahead", "stores", "gloads", "pbstores")
+    __slots__ = ("bytes", "err", "ret_nonnull", "consumed", "next", "appends", "calls", "lookahead", "stores", "gloads", "pbstores", "reads", "field_reads", "field_writes", "tail")
 
     def to_json(self):
         return {"bytes": _ranges(self.bytes), "err": self.err, "ret": self.ret_nonnull, "consumed": self.consumed,
@@ -240,6 +249,27 @@ class Table:
             o.stores = s if keep_state else None
             o.lookahead = any(e[0] == "lookahead" for e in s.trace)
             o.gloads = sorted({e[1] for e in s.trace if e[0] == "gload"})
+            o.reads = sum(1 for e in s.trace if e[0] == "read")
+            # what happens after the cursor was last advanced (the end-of-chunk probe and the exit path)
+            last = -1
+            for k, e in enumerate(s.trace):
+                if e[0] == "wr" and e[1] == self.F["char_offset"]:
+                    last = k
+            fidx0 = {v: k for k, v in self.F.items()}
+            tail = []
+            for e in s.trace[last + 1:]:
+                if e[0] == "wr":
+                    tail.append("wr:" + fidx0.get(e[1], str(e[1])))
+                elif e[0] == "wrstack":
+                    tail.append("wr:stack")
+                elif e[0] == "call":
+                    tail.append("call:" + e[1])
+                elif e[0] in ("read", "lookahead", "pbstore"):
+                    tail.append(e[0])
+            o.tail = tuple(tail)
+            fidx = {v: k for k, v in self.F.items()}
+            o.field_reads = sorted({fidx.get(e[1], str(e[1])) for e in s.trace if e[0] == "rd"})
+            o.field_writes = sorted({fidx.get(e[1], str(e[1])) for e in s.trace if e[0] == "wr"})
             o.pbstores = sum(1 for e in s.trace if e[0] == "pbstore")
             for e in s.trace:
                 if e[0] == "call":
@@ -252,7 +282,7 @@ class Table:
             return outs
         merged = {}
         for o in outs:
-            key = (o.bytes, o.err, o.ret_nonnull, o.consumed, o.next, json.dumps(o.appends, sort_keys=True), tuple(sorted(set(o.calls))), o.lookahead, tuple(o.gloads), o.pbstores)
+            key = (o.bytes, o.err, o.ret_nonnull, o.consumed, o.next, json.dumps(o.appends, sort_keys=True), tuple(sorted(set(o.calls))), o.lookahead, tuple(o.gloads), o.pbstores, o.reads > 0, tuple(o.field_reads), tuple(o.field_writes), o.tail)
             merged.setdefault(key, o)
         return list(merged.values())
 
@@ -441,6 +471,7 @@ class Table:
                     if n not in seen:
                         seen.add(n)
                         work.append(n)
+        self.deadline = None
         return self
 
     def cfg_str(self, cfg):
